@@ -53,6 +53,8 @@ def spec_strategy():
                                     # entry point: MetadataStore.load(...) / imp({...}) (dict style) / imp([{'class':..., 'metadata': [...]}]) (list style)
                                     'via': st.sampled_from(['load', 'load', 'imp-dict', 'imp-list']),
                                     # spelling of the validUntil instants: number of fractional-second digits
+                                    # per-source option of remote sources: do not apply the validUntil test to this source (and to this source only)
+                                    'no_check': st.sampled_from([False, False, True]),
                                     'vu_frac': st.sampled_from([0, 0, 1, 3, 6, 7, 9]), 'vu_zone': st.sampled_from([None, None, None, '+00:00', '+02:00', '-05:00'])})
     return st.fixed_dictionaries({'sources': st.lists(source, min_size=1, max_size=3)})
 
@@ -160,13 +162,14 @@ def model_of_source(src):
     else:
         ents = src['entities']
         doc_vu = src['valid_until']
-    if doc_vu == 'past':
+    nocheck = bool(src.get('no_check')) and src['how'] == 'extern' and src.get('via', 'load') != 'imp-list'
+    if doc_vu == 'past' and not nocheck:
         return None
     if src['how'] == 'extern' and src['root'] == 'entities' and src['signed'] in ('tampered', 'wrongkey'):
         return None
     out = {}
     for e in ents:
-        if e['valid_until'] == 'past':
+        if e['valid_until'] == 'past' and not nocheck:
             continue
         if IDS[e['id']] in out:
             continue        # first declaration within a document wins
@@ -275,12 +278,13 @@ def run(case):
                 url = 'https://md.example.org/feed-%d' % n
                 docs[url] = xml
                 mds.http = FakeHTTP(docs)
+                extra = {'check_validity': False} if src.get('no_check') else {}
                 if via == 'imp-dict':
-                    mds.imp({'remote': [{'url': url, 'cert': world.crt(7)}]})
+                    mds.imp({'remote': [dict({'url': url, 'cert': world.crt(7)}, **extra)]})
                 elif via == 'imp-list':
                     mds.imp([{'class': 'saml2_tophat.mdstore.MetaDataExtern', 'metadata': [(url, world.crt(7))]}])
                 else:
-                    mds.load('remote', url=url, cert=world.crt(7))
+                    mds.load('remote', url=url, cert=world.crt(7), **extra)
             loaded = True
         except Exception as e:
             loaded = False
